@@ -359,6 +359,36 @@ def rule_implicit(prog, rep):
                         "the `schema` definition can be omitted although it carries information (%s): description/directives/extensions/non-default roots would be lost on round trip" % what, fn.loc())
 
 
+def rule_implicit_roots(prog, rep):
+    """C12.IMPLICIT (roots): the per-operation test inside `.all(..)` must be an *equality* between
+    the root the schema has and the root an implicit schema definition would give
+    (default-named object type present -> Some(default name), else None).  `has none or equal`
+    omits the definition of `schema { query: Query }` in a document that also defines an ordinary
+    `type Mutation`: the re-parsed schema adopts it as a root."""
+    fn = prog.fn(r"^apollo_compiler::schema::serialize::<impl apollo_compiler::node::Node<apollo_compiler::schema::SchemaDefinition>>::to_ast$")
+    alls = [c for c in fn.live_calls() if c.name.endswith("Iterator::all")]
+    done = False
+    for c in alls:
+        m = re.search(r"closure:([^,()]+\{closure#\d+\})", fn.sym(c.args[1]))
+        clo = prog.fns.get(m.group(1)) if m else None
+        if clo is None:
+            continue
+        leaves = set(return_value_on_path(clo, p) or "" for _a, _r, p in enum_paths(clo))
+        done = True
+        ok = len(leaves) == 1
+        leaf = sorted(leaves)[0] if leaves else ""
+        mm = re.match(r"^<Option<T> as PartialEq>::eq\(&?(.*), &?(bool::then_some\(.*default_type_name\(.*)\)$", leaf) or re.match(r"^<Option<T> as PartialEq>::eq\(&?(bool::then_some\(.*default_type_name\(.*), &?(.*)\)$", leaf)
+        ok = ok and mm is not None and "arg2.0" in leaf and re.search(r"is_some_and\(IndexMap::get\(", leaf) is not None
+        rep.obligation(ok)
+        if ok:
+            rep.instance("C12.IMPLICIT", "per operation type: root present == root an implicit definition would have (Option equality with then_some(default-named object exists, default name))")
+        else:
+            rep.finding("C12.IMPLICIT", fn.name, "roots-equality",
+                        "the per-operation test of the implicit-schema check is `%s`, not an equality between the schema's root and the root an implicit definition would give: an explicit `schema { query: Query }` can be omitted while a default-named `type Mutation` exists, and the re-parsed schema gains that root" % leaf[:160], clo.loc())
+    if not done:
+        rep.fail("UNDECIDED rule=C12.IMPLICIT the per-operation root test (`.all(closure)`) was not found")
+
+
 def rule_toplevel(prog, rep):
     rep.floor("C12.TOPLEVEL", 3)
     fn = prog.fn(r"^apollo_compiler::schema::serialize::<impl apollo_compiler::schema::Schema>::to_ast$")
@@ -408,6 +438,7 @@ def run(prog, rep):
     rule_origins(prog, rep)
     rule_rootops(prog, rep)
     rule_implicit(prog, rep)
+    rule_implicit_roots(prog, rep)
     rule_toplevel(prog, rep)
     rep.assume("indexmap keeps insertion order under insert/shift_remove/retain; Vec keeps push order")
     rep.note("round-trip equality, the closure that compares actual and default root names, and AST serialization itself (C08/C09) are not decided here")
